@@ -209,7 +209,7 @@ fn main() {
     total.merge(check_structured_par(&fams[0], !run.quick(), 2, run.threads));
     total.merge(check_structured_par(&fams[1], !run.quick(), 2, run.threads));
     let meta = Meta {
-        rule: "history trees: every word over the value alphabet up to the stated length, every window 1..=len+2, every min_periods in {omitted} U 0..=w, every listed entry point, element-type pair and output path; every output position is compared with the statistic recomputed from the window. Plus de Bruijn long traces. Non-trivial = word with at least one non-null element (distinct words counted). Configuration families (DESIGN 5.15): the value law on every input back-end configuration (family backends); the deep families with float nulls written as other NaN kinds (*-nan-kinds).".into(),
+        rule: "history trees: every word over the value alphabet up to the stated length, every window 1..=len+2, every min_periods in {omitted} U 0..=w, every listed entry point, element-type pair and output path; every output position is compared with the statistic recomputed from the window. Plus de Bruijn long traces. Non-trivial = word with at least one non-null element (distinct words counted). Configuration families (DESIGN 5.15): the value law on every input back-end configuration (family backends); the deep families with float nulls written as other NaN kinds (*-nan-kinds). Round 8 (DESIGN 5.17): structured series of 1030 (quick) / 2100 (thorough) elements, every fourth shape, windows 3 / 20 and 7 / 64.".into(),
         bounds: json!({
             "alphabets": {"deep": json_word(&fams[0].alpha), "matrix": json_word(&fams[2].alpha)},
             "max_len": fams.iter().map(|f| json!({"family": f.name, "L": f.max_len, "types": f.tys.iter().map(|t| t.name.clone()).collect::<Vec<_>>() })).collect::<Vec<_>>(),
